@@ -170,20 +170,42 @@ def models(ctx):
                note="mechanism as written: clear() loses free nodes, a later put is refused although there is room (C17-KF4, patch C17-1)")
 
 
+def merge_b2(ctx, gens, subject=None, sample=None, max_mismatch=None):
+    """generate the behaviours of every (cfg, outdir) with TLC, replay them, add the summaries up"""
+    tot = {"executions": 0, "events": 0, "runs": 0, "subjects": {}, "_outs": []}
+    nbeh = 0
+    for cfg, outdir in gens:
+        beh, n = ctx.tlc_generate("MC_LruGen", cfg=cfg, timeout=3000, jvm="-Xmx12g", outfile=os.path.join(ctx.work, outdir + ".behaviours.ndjson"))
+        if n == 0:
+            raise vlib.ToolError("MC_LruGen/%s produced no behaviours" % cfg)
+        nbeh += n
+        extra = {"in": beh, "keys": 4, "sample": sample or (20000 if ctx.thorough else 4000),
+                 "max_mismatch": max_mismatch or (3 if ctx.thorough else 2)}
+        s = ctx.harness(BIN, "replay", outdir, extra=extra, timeout=3000, subject=subject)
+        if s.get("behaviours") != n:
+            raise vlib.ToolError("B2: harness read %s behaviours, TLC generated %d" % (s.get("behaviours"), n))
+        os.remove(beh)
+        tot["_outs"].append(s["_out"])
+        for k in ("executions", "events", "runs"):
+            tot[k] += s.get(k, 0)
+        for name, d in s.get("subjects", {}).items():
+            t = tot["subjects"].setdefault(name, {})
+            for k, v in d.items():
+                t[k] = t.get(k, 0) + v
+    return tot, nbeh
+
+
 def run(ctx):
     ctx.build(BIN)
     models(ctx)
-    # --- B2: all histories of length L, expected results computed by TLC
-    gen_cfg = "MC_LruGen5.cfg" if ctx.thorough else "MC_LruGen4.cfg"
-    beh, nbeh = ctx.tlc_generate("MC_LruGen", cfg=gen_cfg, timeout=3000, jvm="-Xmx10g")
-    if nbeh == 0:
-        raise vlib.ToolError("MC_LruGen produced no behaviours")
-    s2 = ctx.harness(BIN, "replay", "b2", extra={"in": beh, "keys": 4, "sample": 20000 if ctx.thorough else 2500, "max_mismatch": 25}, timeout=3000)
+    # --- B2: all histories of length L, expected results computed by TLC (thorough: L = 5, one TLC run per capacity)
+    gens = [("MC_LruGen5_c%d.cfg" % c, "b2c%d" % c) for c in (1, 2, 3)] if ctx.thorough else [("MC_LruGen4.cfg", "b2")]
+    s2, nbeh = merge_b2(ctx, gens)
     # --- B1: seeded random histories of all four domains
     s1 = ctx.harness(BIN, "drive", "b1")
     lru_b1 = sorted(glob.glob(os.path.join(s1["_out"], "lru-*.ndjson")))
     pc_b1 = sorted(glob.glob(os.path.join(s1["_out"], "pc-*.ndjson")))
-    lru_b2 = sorted(glob.glob(os.path.join(s2["_out"], "*.ndjson")))
+    lru_b2 = sorted(f for o in s2["_outs"] for f in glob.glob(os.path.join(o, "*.ndjson")))
     ctx.validate(T_LRU, lru_b1 + lru_b2, what="LRU map / bounded store operation history")
     ctx.validate(T_PC, pc_b1, what="page cache / cached blob store operation history")
     # --- binding self-tests: a corrupted observation must be rejected at exactly that line
@@ -266,13 +288,14 @@ def replay(ctx, path):
     ctx.tier = rep.get("tier", ctx.tier)
     ctx.seed = rep.get("seed", ctx.seed)
     if reset.get("b2"):
-        gen_cfg = "MC_LruGen5.cfg" if ctx.tier == "thorough" else "MC_LruGen4.cfg"
-        beh, _ = ctx.tlc_generate("MC_LruGen", cfg=gen_cfg, timeout=3000, jvm="-Xmx10g")
-        s = ctx.harness(BIN, "replay", "rp", extra={"in": beh, "keys": 4, "sample": 1000000, "max_mismatch": 200}, subject=subj, timeout=3000)
+        gens = [("MC_LruGen5_c%d.cfg" % c, "rp%d" % c) for c in (1, 2, 3)] if ctx.tier == "thorough" else [("MC_LruGen4.cfg", "rp")]
+        s, _ = merge_b2(ctx, gens, subject=subj, sample=1000000, max_mismatch=20)
+        outs = s["_outs"]
     else:
         s = ctx.harness(BIN, "drive", "rp", subject=subj)
-    lru = sorted(glob.glob(os.path.join(s["_out"], "lru*.ndjson")))
-    pc = sorted(glob.glob(os.path.join(s["_out"], "pc-*.ndjson")))
+        outs = [s["_out"]]
+    lru = sorted(f for o in outs for f in glob.glob(os.path.join(o, "lru*.ndjson")))
+    pc = sorted(f for o in outs for f in glob.glob(os.path.join(o, "pc-*.ndjson")))
     if lru:
         ctx.validate(T_LRU, lru, what="replay of " + os.path.basename(path))
     if pc:
